@@ -30,7 +30,7 @@ REQUIRED_COUNTS = {'history_value_checks': 200, 'branch:add-equal': 1, 'branch:a
                    'branch:div-scalar': 1, 'exact_comparisons': 100}
 CASE_TIMEOUT = {'quick': 60, 'thorough': 60}
 
-SCALAR_KINDS = ['int', 'negint', 'float', 'complex', 'npf64', 'npi64', 't0', 't1', 'zero', 'zerof', 'float_nr', 'npf64_nr', 't0_nr', 't0_f32', 't0_i64', 't1_i32', 'tiny', 'tinyneg', 'huge']
+SCALAR_KINDS = ['int', 'negint', 'float', 'complex', 'npf64', 'npi64', 't0', 't1', 'zero', 'zerof', 'float_nr', 'npf64_nr', 't0_nr', 't0_f32', 't0_i64', 't1_i32', 'tiny', 'tinyneg', 'huge', 't0_bigint', 't1_bigint']
 NR_KINDS = ('float_nr', 'npf64_nr', 't0_nr')      # values with no finite binary expansion: a detour through another precision is visible
 DT = ['f64', 'f64', 'f64', 'f32', 'c128']
 
@@ -152,6 +152,8 @@ def scalar_of(kind, dtype):
             'float_nr': 0.3, 'npf64_nr': np.float64(-0.7), 't0_nr': torch.tensor(0.3, dtype=dtype),
             # tensor scalars whose dtype is NOT the dtype of the TT (lower in torch's promotion order: the result keeps the TT's dtype and must be computed in it)
             'tiny': 1e-18, 'tinyneg': -3e-17, 'huge': 1e18,
+            # integer tensor scalars that float32 cannot hold (|s| > 2**24): any detour through float32 is off by several units
+            't0_bigint': torch.tensor(123456789), 't1_bigint': torch.tensor([-1000000007]),
             't0_f32': torch.tensor(3.0, dtype=torch.float32), 't0_i64': torch.tensor(3), 't1_i32': torch.tensor([6], dtype=torch.int32)}[kind]
 
 
@@ -161,7 +163,7 @@ def scalar_ref(kind, s=None):
         return v.real if isinstance(v, complex) and v.imag == 0 else v
     if kind in ('float_nr', 'npf64_nr'):
         return float(s)
-    return {'int': 2, 'negint': -3, 'float': 0.5, 'complex': (1 + 2j), 'npf64': 0.5, 'npi64': 2, 't0': 2.0, 't1': 2.0, 'zero': 0, 'zerof': 0.0, 't0_f32': 3.0, 't0_i64': 3, 't1_i32': 6, 'tiny': 1e-18, 'tinyneg': -3e-17, 'huge': 1e18}[kind]
+    return {'int': 2, 'negint': -3, 'float': 0.5, 'complex': (1 + 2j), 'npf64': 0.5, 'npi64': 2, 't0': 2.0, 't1': 2.0, 'zero': 0, 'zerof': 0.0, 't0_f32': 3.0, 't0_i64': 3, 't1_i32': 6, 'tiny': 1e-18, 'tinyneg': -3e-17, 'huge': 1e18, 't0_bigint': 123456789, 't1_bigint': -1000000007}[kind]
 
 
 def run_case(case, ctx):
@@ -226,7 +228,7 @@ def run_scalar(case, ctx, g):
     else:
         ctx.count('branch:%s-scalar' % base)
     base_ = base
-    skind = 'tensor-scalar' if kind in ('t0', 't1', 't0_nr') else ('tensor-scalar(other dtype)' if kind in ('t0_f32', 't0_i64', 't1_i32') else ('numpy-scalar' if kind.startswith('np') else 'python-scalar'))
+    skind = 'tensor-scalar' if kind in ('t0', 't1', 't0_nr') else ('tensor-scalar(other dtype)' if kind in ('t0_f32', 't0_i64', 't1_i32', 't0_bigint', 't1_bigint') else ('numpy-scalar' if kind.startswith('np') else 'python-scalar'))
     key = 'scalar/%s/%s' % (op, skind)
     what = 'x %s scalar(%s=%r) N=%s R=%s %s' % (op, kind, sr, case['N'], case['R'], case['dtype'])
     dx = dn.D(x)
@@ -246,7 +248,7 @@ def run_scalar(case, ctx, g):
     except ValueError as e:
         ctx.viol(key + '/clause=ill-formed-result', '%s: %s' % (what, e))
         return
-    if kind in ('tiny', 'tinyneg', 'huge'):
+    if kind in ('tiny', 'tinyneg', 'huge', 't0_bigint', 't1_bigint'):
         # scalars far from 1: the allowance follows the size of the exact result (a product with 1e-18 that comes back as 0 is off by 100 %, not by roundoff)
         a_ = abs(sr)
         mag = srep * a_ if base_ == 'mul' else (srep / a_ if base_ == 'div' else srep + a_ * max(1, ref.numel()) ** 0.5)
